@@ -48,8 +48,10 @@ func C01(c *core.Ctx) {
 			sig := "C01|" + res.Name
 			reportProbs(c, "C01", res.Probs, res.Name)
 			tag := "C01|nogc"
-			if gc {
-				tag = "C01|gc"
+			if gc && res.GCOK > 0 {
+				tag = "C01|gc" // only histories in which GC rewrote a file can show the listed GC finding
+			} else if gc {
+				tag = "C01|gc-loop-without-rewrite"
 			}
 			st := hist.CheckReads(c, tag, res.H, res.M)
 			_ = sig
